@@ -96,6 +96,15 @@ CHECKS["C12"] = dict(
     note="trusted: renderer, projection, double-precision evaluation of terms with the ounce constant / large powers of two (1e-9), TLC; unit sizes are those written in spec/Units.tla",
     ref="7 C12")
 
+CHECKS["C18"] = dict(
+    technique="TLA+ spec (Registry.tla; rule list and unit families as state of SmartCalc.tla) model-checked by TLC; TLC-enumerated registration / deletion / evaluation histories replayed into the code; random histories validated by TLC (Trace.tla)",
+    text="TLC checks RegistryIsReplay (the rule list always equals the replay of the surviving registrations), the return values of every registry call, DupRejected and EvalFramesCalc on every "
+         "history it enumerates: 20,736 rule histories (4 calls over 12 actions: rules sharing patterns, conditional acceptance, declining, unknown language, deletion by name) and 10,000 family "
+         "histories (duplicates, other factors, unknown family, conversions along the chain); quick replays a seeded sample of 5,000 + 5,000 on fresh calculators, thorough depth 5 up to 60,000 "
+         "per part; 'as if the rule were absent' is compared with a rule-free calculator; random histories of 30..80 calls are executed and validated by TLC.",
+    note="trusted: rule behaviour interpreter harness/src/rules.rs, renderer, projection, TLC; history depth and alphabets bounded; lines contain at most one occurrence of a registered pattern",
+    ref="7 C18")
+
 NOT_YET = {
 }
 
